@@ -114,9 +114,11 @@ def h_units(ctx, skeleton, n, which, args=None, sym_mode="touched", values=None)
     V.compare_systems(ctx, B, A, "re-expressed = default units")
 
 
-def h_units_edit(ctx, skeleton, n, slot, alt, args=None):
+def h_units_edit(ctx, skeleton, n, slot, alt, args=None, scale=None):
     """on a computed system an input is re-assigned with the *same magnitude in another unit* (5 MB -> 5 GB): the live
-    system equals the model built with that value from the start (the unit of a new value is never ignored)"""
+    system equals the model built with that value from the start (the unit of a new value is never ignored).
+    scale=k: the new value is instead k times the old physical value, *written in the other unit* (a value that never went
+    through the constructor of its object, in a unit the constructor's defaults do not use)"""
     from efootprint.abstract_modeling_classes.source_objects import SourceValue
     spec = M.SKELETONS[skeleton](n, **(args or {}))
     (s_, p, d, un) = [x for x in slots_of(spec) if x[0] == slot][0]
@@ -130,12 +132,13 @@ def h_units_edit(ctx, skeleton, n, slot, alt, args=None):
     V.observe_system(ctx, A, "A.")
     name = slot.split(".")[0]
     errA = errB = None
+    new = x if scale is None else x * scale * factor
     try:
-        setattr(A[name], p, SourceValue(x * M.u(alt_unit)))
+        setattr(A[name], p, SourceValue(new * M.u(alt_unit)))
     except ValueError as e:
         errA = e
     try:
-        B = M.build(spec, envA.child(values={slot: x}, units={slot: alt_unit}))
+        B = M.build(spec, envA.child(values={slot: new}, units={slot: alt_unit}))
     except ValueError as e:
         errB = e
     if errA is not None or errB is not None:
@@ -143,7 +146,8 @@ def h_units_edit(ctx, skeleton, n, slot, alt, args=None):
                     robust=True, detail=f"live: {type(errA).__name__ if errA else 'ok'}; fresh: {type(errB).__name__ if errB else 'ok'}")
         raise errA or errB
     V.observe_system(ctx, B, "B.")
-    V.compare_systems(ctx, A, B, f"{slot} re-assigned as the same number of {alt_unit}: live = fresh")
+    V.compare_systems(ctx, A, B, f"{slot} re-assigned as the same number of {alt_unit}: live = fresh" if scale is None else
+                      f"{slot} re-assigned as {scale} x its value written in {alt_unit}: live = fresh")
 
 
 BUILDER_SLOTS = [  # kind, choice, slot, default, alternative unit, exact factor (magnitude_alt = magnitude_default * factor), range
@@ -205,6 +209,17 @@ def plan(tier, seed):
     for slot, alt in (("job.data_transferred", 0), ("job.ram_needed", 0), ("st.storage_capacity", 0), ("dev.lifespan", 0),
                       ("srv.ram", 1), ("fr.average_carbon_intensity", 1), ("dev.power", 0), ("job.data_stored", 1)):
         p.append(("units_edit", dict(skeleton="T1", n=2, slot=slot, alt=alt)))
+    # another physical value written in another unit, assigned on the computed system: every input of T1 (the time-like
+    # ones, which go through rounding steps, always; a seeded half of the others in quick)
+    import random as _random
+    r2 = _random.Random(seed + 7)
+    t1_slots = [(s, un) for (s, pn, d, un) in slots_of(M.SKELETONS["T1"](3)) if ALT.get(un)]
+    always = [x for x in t1_slots if x[0].split(".")[1] in ("data_storage_duration", "user_time_spent", "request_duration", "lifespan")]
+    others = [x for x in t1_slots if x not in always]
+    r2.shuffle(others)
+    for s, un in always + (others if tier == "thorough" else others[:len(others) // 2]):
+        for alt in range(len(ALT[un]) if s.endswith("data_storage_duration") else 1):
+            p.append(("units_edit", dict(skeleton="T1", n=3, slot=s, alt=alt, scale=2)))
     for i in range(len(BUILDER_SLOTS)):
         p.append(("units_builders", dict(index=i)))
     # one at a time
